@@ -225,3 +225,48 @@ def run(c, case, observe):
     except Guarded as g:
         out.append((f"raises_{g.where}_{type(g.exc).__name__}", str(g)))
     return out
+
+
+BASIC_OBSERVERS = ["bytes", "len", "serialize_to_string", "dump", "to_dict", "to_json", "eq_self", "repr", "bool"]
+
+
+def basic_observe(m, equal, what):
+    from io import BytesIO
+
+    if what == "bytes":
+        bytes(m)
+    elif what == "len":
+        len(m)
+    elif what == "serialize_to_string":
+        m.SerializeToString()
+    elif what == "dump":
+        m.dump(BytesIO())
+    elif what == "to_dict":
+        m.to_dict()
+    elif what == "to_json":
+        m.to_json()
+    elif what == "eq_self":
+        m == m
+        m == equal
+    elif what == "repr":
+        repr(m)
+    elif what == "bool":
+        bool(m)
+
+
+def target(pid, c, quick=300, thorough=4000):
+    """The in-place histories as a target of another property (C02 / C09: what is encoded - and its announced length -
+    must be what the object holds NOW, however often it was encoded before and however it was changed since)."""
+    from ..engine import Eval, Failure, Target
+
+    def ev(case):
+        found = run(c, case, basic_observe)
+        steps = case["steps"]
+        fails = [Failure(cl.split("|")[0], f"prog|{cl}|{case['msg']}", f"case={case!r:.1200} :: {d}") for cl, d in found]
+        muts = [s_ for s_ in steps if s_["op"] == "mut"]
+        return Eval(fails, nontrivial=bool(muts) and any(s_["op"] in ("check", "observe") for s_ in steps),
+                    labels=[f"prog_msg:{case['msg']}"] + sorted({f"prog_op:{s_['op']}" for s_ in steps}))
+
+    names = ["Holder"] * 3 + ["Box", "Mixed", "Rec", "Repeats", "Maps", "Oneofs", "Scalars", "Optionals"]
+    return Target("inplace_histories_vs_model", ev, strategy=strategy(c, names, BASIC_OBSERVERS), quick=quick, thorough=thorough, time_quick=50,
+                  rule="programs of in-place mutations / copies / observers (bytes, len, SerializeToString, dump, to_dict, ...) over one object and its copies; every object is compared - through the reference decoder, len and an independently built twin - with the tree model of its own history")
